@@ -213,9 +213,14 @@ func Inject(lines []Line, s Spelling, class string, pos int, variant int) (out [
 		out[pos].Text = indent + "x " + clean
 	case M2EmptyText:
 		b := l.Text[len(indent) : len(indent)+1]
-		if variant%2 == 0 {
+		switch {
+		case l.Depth == 1 && variant%4 == 2:
+			out[pos].Text = "#" // a heading without text
+		case l.Depth == 1 && variant%4 == 3:
+			out[pos].Text = "## "
+		case variant%2 == 0:
 			out[pos].Text = indent + b
-		} else {
+		default:
 			out[pos].Text = indent + b + " "
 		}
 	case M3NotMultiple:
